@@ -703,27 +703,39 @@ def retrieve_u_contract(ctx):
     f = S.get_function(CTBX + ":retrieve_u")
     ctx.use_function(f)
     body = [st for st in f.node.body if not (isinstance(st, ast.Expr) and isinstance(st.value, ast.Constant))]
-    idx = [k for k, st in enumerate(body) if isinstance(st, ast.Assign) and ast.unparse(st.targets[0]) == "params"
-           and ast.unparse(st.value) in ("copy.deepcopy(params)", "deepcopy(params)", "dict(params)", "params.copy()", "{**params}")]
-    ctx.decided("argument-is-copied", "frame", len(idx) >= 1, witness="no `params = copy.deepcopy(params)` at the top level (%s)" % why)
+    arg = f.node.args.args[0].arg
+    copies = ("copy.deepcopy(%s)" % arg, "deepcopy(%s)" % arg, "dict(%s)" % arg, "%s.copy()" % arg, "{**%s}" % arg,
+              "copy.copy(%s)" % arg)
+    idx = [(k, st.targets[0].id) for k, st in enumerate(body) if isinstance(st, ast.Assign) and isinstance(st.targets[0], ast.Name)
+           and ast.unparse(st.value) in copies]
+    ctx.decided("argument-is-copied", "frame", len(idx) >= 1,
+                witness="no top-level `<name> = copy.deepcopy(%s)` (or dict / .copy()) in retrieve_u (%s)" % (arg, why))
     if not idx:
         return
-    before = body[:idx[0]]
+    pos, copyname = idx[0]
     bad = []
-    for st in before:
-        for n in ast.walk(st):
-            if isinstance(n, ast.Return) and n.value is not None and "params" in [x.id for x in ast.walk(n.value) if isinstance(x, ast.Name)]:
-                bad.append("line %d returns the argument object before it is copied: %s" % (n.lineno, ast.unparse(n)))
-            if isinstance(n, (ast.Assign, ast.AugAssign, ast.Delete)):
-                tg = n.targets if isinstance(n, (ast.Assign, ast.Delete)) else [n.target]
-                for t_ in tg:
-                    if isinstance(t_, ast.Subscript) and ast.unparse(t_.value) == "params":
-                        bad.append("line %d writes the argument before it is copied: %s" % (n.lineno, ast.unparse(n)))
-            if isinstance(n, ast.Call) and isinstance(n.func, ast.Attribute) and ast.unparse(n.func.value) == "params" \
-                    and n.func.attr in ("update", "pop", "setdefault", "clear", "popitem"):
-                bad.append("line %d mutates the argument before it is copied: %s" % (n.lineno, ast.unparse(n)))
-    ctx.decided("no-return-of-or-store-into-the-argument-before-the-copy", "frame", not bad, witness="; ".join(bad))
 
+    def scan(stmts, after_copy):
+        for st in stmts:
+            for n in ast.walk(st):
+                names = lambda e: [x.id for x in ast.walk(e) if isinstance(x, ast.Name)]
+                # the ORIGINAL object is `arg` before the copy, and still `arg` afterwards unless the copy rebinds that name
+                orig_alive = (not after_copy) or copyname != arg
+                if not orig_alive:
+                    continue
+                if isinstance(n, ast.Return) and n.value is not None and arg in names(n.value):
+                    bad.append("line %d returns the argument object itself: %s" % (n.lineno, ast.unparse(n)))
+                if isinstance(n, (ast.Assign, ast.AugAssign, ast.Delete)):
+                    tg = n.targets if isinstance(n, (ast.Assign, ast.Delete)) else [n.target]
+                    for t_ in tg:
+                        if isinstance(t_, ast.Subscript) and ast.unparse(t_.value) == arg:
+                            bad.append("line %d writes the argument object: %s" % (n.lineno, ast.unparse(n)))
+                if isinstance(n, ast.Call) and isinstance(n.func, ast.Attribute) and ast.unparse(n.func.value) == arg \
+                        and n.func.attr in ("update", "pop", "setdefault", "clear", "popitem"):
+                    bad.append("line %d mutates the argument object: %s" % (n.lineno, ast.unparse(n)))
+    scan(body[:pos], False)
+    scan(body[pos + 1:], True)
+    ctx.decided("no-return-of-or-store-into-the-argument-before-the-copy", "frame", not bad, witness="; ".join(bad))
 
 
 @unit("C16", "create_pipes/std_type_list", functions=[CR + ":create_pipes"], engine="E5")
